@@ -1,0 +1,46 @@
+//go:build verif
+
+package cache
+
+import (
+	"io"
+	"time"
+
+	"github.com/miekg/dns"
+)
+
+// Exported shims for the verification harness (/verif). Add-only, compiled
+// only with -tags verif.
+
+func VerifGetMsgKey(q *dns.Msg) string { return getMsgKey(q) }
+
+func VerifCopyNoOpt(m *dns.Msg) *dns.Msg { return copyNoOpt(m) }
+
+// VerifSave runs saveRespToCache on c's backend.
+func (c *Cache) VerifSave(msgKey string, r *dns.Msg) bool {
+	return saveRespToCache(msgKey, r, c.backend, c.args.LazyCacheTTL)
+}
+
+// VerifGet runs getRespFromCache on c's backend.
+func (c *Cache) VerifGet(msgKey string) (*dns.Msg, bool) {
+	return getRespFromCache(msgKey, c.backend, c.args.LazyCacheTTL > 0, expiredMsgTtl)
+}
+
+// VerifInject stores r under msgKey with explicit times.
+func (c *Cache) VerifInject(msgKey string, r *dns.Msg, stored, msgExp, cacheExp time.Time) {
+	c.backend.Store(key(msgKey), &item{resp: r, storedTime: stored, expirationTime: msgExp}, cacheExp)
+}
+
+// VerifPeek returns the stored item's times and message (not a copy).
+func (c *Cache) VerifPeek(msgKey string) (r *dns.Msg, stored, msgExp, cacheExp time.Time, ok bool) {
+	v, exp, ok := c.backend.Get(key(msgKey))
+	if !ok || v == nil {
+		return nil, time.Time{}, time.Time{}, time.Time{}, false
+	}
+	return v.resp, v.storedTime, v.expirationTime, exp, true
+}
+
+func (c *Cache) VerifLen() int { return c.backend.Len() }
+
+func (c *Cache) VerifWriteDump(w io.Writer) (int, error) { return c.writeDump(w) }
+func (c *Cache) VerifReadDump(r io.Reader) (int, error)  { return c.readDump(r) }
